@@ -11,6 +11,7 @@ package dawn
 // events for the TLA+ monitor BuildMon.
 
 import (
+	"math/rand"
 	"bufio"
 	"crypto/sha256"
 	"encoding/hex"
@@ -70,6 +71,8 @@ type bStep struct {
 	Clean bool     `json:"clean,omitempty"`
 	Rerun bool     `json:"rerun,omitempty"` // run again on the same Project without reloading
 	Reuse bool     `json:"reuse,omitempty"` // do not reload: use the Project of the previous build step (REPL session)
+	// op "watch": Project.Watch runs on Root while the script edits the tree
+	Script []bStep `json:"script,omitempty"`
 }
 
 type bCase struct {
@@ -109,6 +112,15 @@ type bWorld struct {
 	inflight atomic.Int64 // evaluating events without their succeeded/failed yet
 	evalSeen sync.Map
 	fixedArgs []string // child builds: the command line decided by the parent
+	// watch mode
+	watching  atomic.Bool
+	watchRoot string
+	inBuild   atomic.Bool
+	lastEvent atomic.Int64 // unix nanoseconds of the last logged event
+	lastEdit  atomic.Int64
+	loadDone  atomic.Int64
+	gates     map[string]chan struct{} // armed holds: the next body of that target blocks until released
+	held      chan string              // a body reports that it is blocked
 }
 
 // value of the env atom of a target at a version, by value class; the sequences straddle
@@ -389,7 +401,10 @@ func (w *bWorld) setup() error {
 
 // ---- the body builtin ------------------------------------------------------------------
 
-func (w *bWorld) logEvent(ev string, kv ...any) { w.rec.Log(ev, kv...) }
+func (w *bWorld) logEvent(ev string, kv ...any) {
+	w.lastEvent.Store(time.Now().UnixNano())
+	w.rec.Log(ev, kv...)
+}
 
 func (w *bWorld) crashPoint(point, lbl string) {
 	c := w.crash
@@ -455,6 +470,15 @@ func (w *bWorld) vexec(thread *starlark.Thread, fn *starlark.Builtin, args starl
 		parts = append(parts, "dep:"+d+"="+hex.EncodeToString(sum[:6]))
 	}
 	content := strings.Join(parts, "|")
+	// watch scenarios: a held body stops here, after it has read its inputs
+	w.mu.Lock()
+	gate := w.gates[name]
+	delete(w.gates, name)
+	w.mu.Unlock()
+	if gate != nil {
+		w.held <- name
+		<-gate
+	}
 	// some output on the target's stdout (exercises the line writer): two lines, split oddly
 	// (the three writes split the two lines at odd places; the last line is unterminated)
 	for _, chunk := range []string{"run " + name + "\npar", "", "tial line of " + name} {
@@ -529,7 +553,32 @@ func (e *bEvents) TargetFailed(l *label.Label, err error) {
 	e.w.logEvent("Failed", "l", e.w.nameOfLabel(l), "msg", err.Error())
 	e.done(l)
 }
-func (e *bEvents) RunDone(err error) { e.w.logEvent("RunDone", "err", err != nil) }
+func (e *bEvents) RunDone(err error) {
+	e.w.logEvent("RunDone", "err", err != nil)
+	if e.w.watching.Load() {
+		// a build of watch mode ends here; it is "overlapped" when the tree was edited after the
+		// hand-off that started it (conservatively: from 700 ms before its reload finished)
+		over := e.w.lastEdit.Load() > e.w.loadDone.Load()-int64(700*time.Millisecond)
+		e.w.logEvent("BuildEnd", "root", e.w.watchRoot, "err", err != nil, "msg", fmt.Sprint(err), "overlapped", over)
+		e.w.inBuild.Store(false)
+	}
+}
+func (e *bEvents) LoadDone(err error) {
+	if !e.w.watching.Load() {
+		return
+	}
+	e.w.logEvent("Load", "ok", err == nil, "expected", true)
+	if err == nil {
+		e.w.loadDone.Store(time.Now().UnixNano())
+		e.w.inBuild.Store(true)
+		e.w.logEvent("BuildBegin", "root", e.w.watchRoot, "mode", "real", "watch", true)
+	}
+}
+func (e *bEvents) FileChanged(l *label.Label) {
+	if e.w.watching.Load() {
+		e.w.logEvent("FileChanged", "l", l.String())
+	}
+}
 func (e *bEvents) Print(l *label.Label, line string) {
 	e.w.logEvent("Print", "l", e.w.nameOfLabel(l), "line", line)
 }
@@ -815,8 +864,91 @@ func (w *bWorld) cleanCompare(root string) (bool, string) {
 	return true, ""
 }
 
+// watch runs Project.Watch on the step's root while the script edits the tree; bodies can be held
+// so that edits land in the middle of a build. Watch never returns: its goroutines are left behind.
+func (w *bWorld) watch(c *bCase, st *bStep, exe string) error {
+	proj, err := Load(w.dir, w.options())
+	if err != nil {
+		w.logEvent("Load", "ok", false, "msg", err.Error())
+		return nil
+	}
+	w.proj = proj
+	w.watchRoot = st.Root
+	w.gates, w.held = map[string]chan struct{}{}, make(chan string, 16)
+	armed := map[string]chan struct{}{}
+	w.watching.Store(true)
+	prevYield := VerifYield
+	VerifYield = func(point, obj string) {
+		if strings.HasPrefix(point, "watch.") && w.watching.Load() {
+			w.logEvent("Watch", "wp", point, "obj", obj)
+		}
+	}
+	defer func() { VerifYield = prevYield }()
+	w.logEvent("WatchBegin", "root", st.Root)
+	go proj.Watch(w.rootLabel(st.Root))
+	time.Sleep(200 * time.Millisecond) // the notifier installs its watches
+	quiet := func() bool {
+		deadline := time.Now().Add(25 * time.Second)
+		for time.Now().Before(deadline) {
+			idle := time.Duration(time.Now().UnixNano() - w.lastEvent.Load())
+			if idle > 1300*time.Millisecond && !w.inBuild.Load() {
+				return true
+			}
+			time.Sleep(50 * time.Millisecond)
+		}
+		return false
+	}
+	ok := true
+	for i := range st.Script {
+		sub := &st.Script[i]
+		switch sub.Op {
+		case "hold":
+			ch := make(chan struct{})
+			w.mu.Lock()
+			w.gates[sub.T] = ch
+			w.mu.Unlock()
+			armed[sub.T] = ch
+		case "wait_held":
+			select {
+			case <-w.held:
+			case <-time.After(10 * time.Second):
+				w.logEvent("HarnessNote", "what", "no body was held within 10s")
+			}
+		case "release":
+			if ch := armed[sub.T]; ch != nil {
+				close(ch)
+				delete(armed, sub.T)
+			}
+		case "quiet":
+			if !quiet() {
+				ok = false
+			}
+		case "sleep":
+			time.Sleep(time.Duration(60+rand.Intn(500)) * time.Millisecond)
+		default:
+			w.lastEdit.Store(time.Now().UnixNano())
+			if err := w.apply(c, sub, exe); err != nil {
+				return err
+			}
+			w.lastEdit.Store(time.Now().UnixNano())
+		}
+	}
+	for _, ch := range armed {
+		close(ch)
+	}
+	if ok && quiet() {
+		w.logEvent("Quiesce", "root", st.Root)
+	} else {
+		w.logEvent("Hang", "what", "watch mode did not settle within 25s")
+	}
+	w.watching.Store(false)
+	return nil
+}
+
 func (w *bWorld) apply(c *bCase, st *bStep, exe string) error {
 	switch st.Op {
+	case "watch":
+		return w.watch(c, st, exe)
 	case "edit_env":
 		w.envVer[st.T]++
 		mates := w.mates(st.T)
